@@ -145,4 +145,23 @@ pub fn worker(ctx: &Ctx, res: &mut ShardResult) {
     }
 }
 
-pub fn replay(case: &Value) -> Vec<String> { vec![format!("rerun ./vf check C12 quick (case {})", case)] }
+/// Re-measure one recorded (language, size, edit position) and compare with the thresholds.
+pub fn replay(case: &Value) -> Vec<String> {
+    let case = if case.get("kind").and_then(|k| k.as_str()) == Some("crash") { &case["case"] } else { case };
+    let (Some(lname), Some(n), Some(pos)) = (case["lang"].as_str(), case["n"].as_u64(), case["pos"].as_u64()) else { return vec![format!("not a single-measurement case (the growth rule compares whole sizes): rerun ./vf check C12 quick ({})", case)] };
+    let Some(z) = crate::zoo::by_name(lname) else { return vec![format!("unknown language {}", lname)] };
+    let info = build_info(&z);
+    let (doc, _) = gen_doc(lname, n as usize);
+    let mut parser = Parser::new();
+    parser.set_language(&info.language).unwrap();
+    let tree = parser.parse(&doc, None).unwrap();
+    let old_ids: HashSet<usize> = XTree::build(&tree).nodes.iter().map(|x| x.id).collect();
+    let Some(m) = measure(&mut parser, &doc, &tree, &old_ids, pos as usize) else { return vec!["the edit produced an error tree".into()] };
+    let (max_lexed, max_bytes, min_shared) = thresholds(lname);
+    println!("lexed {} (threshold {}), bytes read {} (threshold {}), shared fraction {:.3} (threshold {:.2}), {} nodes", m.lexed, max_lexed, m.bytes_read, max_bytes, m.shared_frac, min_shared, m.new_nodes);
+    let mut msgs = vec![];
+    if m.lexed > max_lexed { msgs.push(format!("too-many-tokens-relexed: {} > {}", m.lexed, max_lexed)); }
+    if m.bytes_read > max_bytes { msgs.push(format!("too-much-text-read: {} > {}", m.bytes_read, max_bytes)); }
+    if m.shared_frac < min_shared { msgs.push(format!("too-few-nodes-shared: {:.3} < {:.2}", m.shared_frac, min_shared)); }
+    msgs
+}
